@@ -40,6 +40,9 @@ def corpus(seed):
         lines.append("mtadd g %d %s %d %s" % (gen.MID[m] + 20, pool.hx(gen.TAG[m]), cnt,
                                                pool.hx(facts.rbytes_pattern("rnd", 32, gen.MID[m]))))
         lines.append("mtadd g %d %s %d -" % (gen.MID[m] + 20, pool.hx(gen.TAG[m]), cnt))
+    # NULL prefix: "the best method this build has", looked up by the library itself
+    lines.append("mtadd g %d - 0 %s" % (gen.MID["yescrypt"] + 20, pool.hx(facts.rbytes_pattern("rnd", 32, 99))))
+    lines.append("mtadd g %d - 0 -" % (gen.MID["yescrypt"] + 20))
     return lines
 
 
@@ -56,8 +59,8 @@ def tsan_reports(text):
     return out
 
 
-def one_run(path, lines, nt, iters, seed, static_api, only=-1):
-    w = pool.Worker(path)
+def one_run(path, lines, nt, iters, seed, static_api, only=-1, env=None):
+    w = pool.Worker(path, env=env)
     res, end = w.run(lines + ["mt %d %d %d %d %d" % (nt, iters, seed, static_api, only)], 900)
     err = w.stderr_text()
     w.stop()
@@ -72,8 +75,13 @@ def do_run(args):
     kind = args[5] if len(args) > 5 else "mix"
     only = args[6] if len(args) > 6 else -1
     acc = common.Acc()
-    pre = (["mtcold 1"] if kind == "cold" else []) + lines
-    res, end, err = one_run(path, pre, nt, iters, seed, 0, only)
+    pre = (["mtcold 1"] if kind.startswith("cold") else []) + lines
+    env = None
+    if kind == "locale":
+        from .. import locale8
+        env = {"LOCPATH": args[7]}
+        pre = ["setlocale " + locale8.NAME] + pre
+    res, end, err = one_run(path, pre, nt, iters, seed, 0, only, env)
     acc.count("runs_" + kind)
     lines = pre + ["# kind=%s only=%s" % (kind, only)]
     lines = pre
@@ -97,6 +105,13 @@ def do_run(args):
                       "threads=%d: %s of %s calls returned something else than the sequential table; first: %s" % (
                           nt, r["mism"], r["calls"], first),
                       rt.replay_obj(FL, lines + ["mt %d %d %d 0 %d" % (nt, iters, seed, only)]))
+    if r.get("loc") == "0":
+        acc.violation("%s/process-locale-changed" % PID,
+                      "threads=%d: the process locale was %r before the concurrent calls and is %r after them" % (
+                          nt, bytes.fromhex(r.get("locb", "")), bytes.fromhex(r.get("loca", ""))),
+                      rt.replay_obj(FL, lines + ["mt %d %d %d 0 %d" % (nt, iters, seed, only)]))
+    if kind == "locale":
+        acc.count("runs_in_a_single_byte_locale")
     acc.count("os_entropy_salts_compared", int(r.get("ossalts", 0)))
     if int(r.get("osdups", 0)) or int(r.get("osflat", 0)):
         first = bytes.fromhex(r.get("first", "")).decode("latin1") if r.get("first") else ""
@@ -156,6 +171,18 @@ def run(tier):
         for mi, m in enumerate(gen.METHODS):
             work.append((path, lines, 8, 40 if tier == "quick" else 150, run_.seed * 7777 + mi + 100 * k, "hammer", mi))
             work.append((path, lines, 8, 6, run_.seed * 9999 + mi + 100 * k, "cold", mi))
+    # first use of everything behind crypt_gensalt* (incl. the NULL-prefix lookup) made concurrently, in many fresh
+    # processes
+    glines_all = [ln for ln in lines if ln.startswith("mtadd g ")]
+    nullg = [ln for ln in glines_all if ln.split()[3] == "-"]
+    for k in range(10 if tier == "quick" else 120):
+        work.append((path, nullg if k % 2 else glines_all, 8, 3, run_.seed * 5555 + k, "cold-gensalt", -1))
+    # a process that has selected a locale (login, su): the calls must leave it alone
+    from .. import locale8
+    locpath = locale8.ensure()
+    if locpath:
+        for k in range(2 if tier == "quick" else 8):
+            work.append((rt.PATHS["vw-opt"], lines, 8, 60, run_.seed * 6666 + k, "locale", -1, locpath))
     # runs are themselves multi-threaded: keep a few side by side only
     for acc in pool.pmap(do_run, work, nproc=3):
         run_.merge(acc)
@@ -227,7 +254,7 @@ def run(tier):
                 "runs (fresh process, one method, expectations computed after the threads ran so that first use is "
                 "concurrent); distinct = (run kind, method, thread count)" % len(lines),
         "runs": int(a.n.get("runs", 0)),
-        "runs_by_kind": {k: int(a.n.get("runs_" + k, 0)) for k in ("mix", "hammer", "cold", "opt-hammer", "opt-many-threads",
+        "runs_by_kind": {k: int(a.n.get("runs_" + k, 0)) for k in ("mix", "hammer", "cold", "cold-gensalt", "locale", "opt-hammer", "opt-many-threads",
                                                                         "big-overlap", "mix-fallbacks", "gensalt-fallbacks")},
         "salts_from_os_entropy_compared_for_repeats": int(a.n.get("os_entropy_salts_compared", 0)),
         "overlapping_cross_thread_call_pairs": int(a.n.get("overlapping_call_pairs", 0)),
